@@ -44,6 +44,7 @@ def run(ctx, col, tier):
     col.not_decided += ["correctness of has_cyclic / is_sorted / is_single_root as statements over all tables",
                         "DSU semantics over union/find histories"]
 
+    col.guard(anchored, ctx, col)
     col.guard(api, ctx, col, tier)
     col.guard(sentinels, ctx, col)
     col.guard(rank, ctx, col)
@@ -434,3 +435,97 @@ def cg_rule(ctx, col):
     allow = tuple(VIEW_ACCESSORS) + ("swcgeom.utils.dsu.DisjointSetUnion.find_parent",)
     for q in (f"{CHK}.has_cyclic", f"{CHK}.is_single_root", f"{CHK}.is_sorted", f"{CHK}.is_bifurcate"):
         recursion_free(ctx, col, "R-CG", [q], f"recursion-free from {q.split('.')[-1]} (find_parent excepted)", allow=allow)
+
+
+def anchored(ctx, col):
+    """Statements that carry the clauses, matched three-way under one renaming per function."""
+    repo = ctx.repo
+    NORM_ = "swcgeom.core.swc_utils.normalizer"
+    CHK = "swcgeom.core.swc_utils.checker"
+    m = repo.get_def(f"{NORM_}.mark_roots_as_somas_")
+    col.text_group("R-CHECK", m.qualname, m, [
+        ("roots = rows whose parent is -1", ["roots = df[names.pid] == -1"], "roots"),
+        ("the kept root is the first such row (a row POSITION)", ["root_loc = roots.argmax()"], "first-root"),
+        ("its id", ["root_id = df.loc[root_loc, names.id]"], "root-id"),
+        ("every root is re-linked to the kept root's id", ["df[names.pid] = np.where(df[names.pid] != -1, df[names.pid], root_id)"], "relink"),
+        ("the kept root (addressed by its row position) gets its marker back", ["df.loc[root_loc, names.pid] = -1"], "restore"),
+    ], fixed=("df", "names"))
+    r = repo.get_def(f"{NORM_}.reset_index_")
+    col.text_group("R-CHECK", r.qualname, r, [
+        ("roots = rows whose parent is -1", ["roots = df[names.pid] == -1"], "roots"),
+        ("the first root's row position", ["root_loc = roots.argmax()"], "first-root"),
+        ("its id", ["root_id = df.loc[root_loc, names.id]"], "root-id"),
+        ("ids are re-based by the first root's id", ["df[names.id] = df[names.id] - root_id"], "shift-id"),
+        ("parent ids are re-based by the same amount, every root keeping -1", ["df[names.pid] = np.where(roots, -1, df[names.pid] - root_id)"], "shift-pid"),
+    ], fixed=("df", "names"))
+    l = repo.get_def(f"{NORM_}.link_roots_to_nearest_")
+    col.text_group("R-CHECK", l.qualname, l, [
+        ("component labels of the forest", ["dsu = get_dsu(df)"], "labels"),
+        ("roots in file order, the first one kept", ["roots = df[df[names.pid] == -1].iterrows()"], "roots"),
+        ("distance of every node to this root", ["dis = np.linalg.norm(vs.to_numpy(), axis=1)"], "dist"),
+        ("nodes of the root's own component are excluded", ["subtree = dsu == dsu[i]"], "own"),
+        ("... by an infinite distance", ["dis = np.where(subtree, np.inf, dis)"], "exclude"),
+        ("the linked component takes the LABEL of the component it joins", ["dsu = np.where(subtree, dsu[dis.argmin()], dsu)"], "merge"),
+        ("the root's parent becomes the id of the nearest outside node", ["df.loc[i, names.pid] = df[names.id].iloc[dis.argmin()]"], "link"),
+    ], fixed=("df", "names", "get_dsu"))
+    for x in own_nodes(l):
+        if isinstance(x, ast.Assign) and norm_src(x.targets[0]) == "dsu" and isinstance(x.value, ast.Call) and (dotted(x.value.func) or "").endswith("where") \
+                and len(x.value.args) == 3 and norm_src(x.value.args[2]) == "dsu":
+            lab = x.value.args[1]
+            if not (isinstance(lab, ast.Subscript) and norm_src(lab.value) == "dsu"):
+                col.bad("R-CHECK", l.qualname, l.loc(x), "the linked component takes the LABEL of the component it joins",
+                        f"`{norm_src(x)}` relabels the linked component with `{norm_src(lab)}`, a row index, not the component label `dsu[...]`: "
+                        f"the merged component is no longer recognised as part of the one it joined and a later root can link back into it",
+                        stmt="merge", definite=True)
+    h = repo.get_def(f"{CHK}.has_cyclic")
+    col.text_group("R-CHECK", h.qualname, h, [
+        ("one element per row", ["dsu = DisjointSetUnion(node_number=node_num)"], "dsu"),
+        ("the edge (node, parent) of every row", ["node_a = topology[0][i]"], "a"),
+        ("...", ["node_b = topology[1][i]"], "b"),
+        ("roots have no edge", ["if node_b == -1: continue"], "skip-root"),
+        ("a cycle <=> an edge joins two nodes that are already connected", ["if dsu.is_same_set(node_a, node_b): return True"], "cycle"),
+        ("edges are added after the test", ["dsu.union_sets(node_a, node_b)"], "union"),
+        ("no cycle only after every edge was examined", ["return False"], "acyclic"),
+    ], fixed=("topology", "DisjointSetUnion"))
+    # a shortcut that answers from the numbering must be strict: `parent <= child` admits the self-parented node
+    for q in ("has_cyclic", "is_sorted", "is_bifurcate"):
+        dd = repo.get_def(f"{CHK}.{q}")
+        for n in own_nodes(dd):
+            if isinstance(n, ast.If) and any(isinstance(b, ast.Return) and isinstance(b.value, ast.Constant) for b in n.body):
+                for c in ast.walk(n.test):
+                    if isinstance(c, ast.Compare) and len(c.ops) == 1 and isinstance(c.ops[0], (ast.LtE, ast.GtE)):
+                        sides = {norm_src(c.left), norm_src(c.comparators[0])}
+                        if sides == {"topology[0]", "topology[1]"}:
+                            col.bad("R-CHECK", dd.qualname, dd.loc(n), f"{q}: the answer is computed from the edges, for every table",
+                                    f"`if {norm_src(n.test)}: {norm_src(n.body[0])}` answers from the numbering alone and admits equality: a node that is its "
+                                    f"own parent (pid == id) passes the shortcut, i.e. a self-loop is not reported", stmt="shortcut", definite=True)
+    s1 = repo.get_def(f"{CHK}.is_single_root")
+    col.text_group("R-CHECK", s1.qualname, s1, [("connected <=> exactly one component label", ["return len(np.unique(get_dsu(df, names=names))) == 1"], "single")],
+                   fixed=("df", "names", "get_dsu"))
+    so = repo.get_def(f"{CHK}.is_sorted")
+    col.text_group("R-CHECK", so.qualname, so, [
+        ("unsorted <=> some node's id is below its parent's id", ["if parent is not None and idx < parent: flag = False"], "test"),
+        ("each node hands its id to its children", ["return idx"], "hand"),
+        ("top-down over the whole topology", ["traverse(topology=topology, enter=enter)"], "walk"),
+    ], fixed=("topology", "traverse"))
+    g = repo.get_def("swcgeom.core.swc_utils.base.get_dsu")
+    col.text_group("R-CHECK", g.qualname, g, [
+        ("initial label: own id for roots, parent id otherwise", ["dsu = np.where(df[names.pid] == -1, df[names.id], df[names.pid])"], "init"),
+        ("ids are turned into row positions through a dict", ["id2idx = dict(zip(df[names.id], range(len(df))))"], "id2idx"),
+        ("...", ["dsu = np.array([id2idx[i] for i in dsu], dtype=_any)"], "map"),
+        ("pointer jumping until no label changes", ["if dsu[i] != dsu[p]:\n    dsu[i] = dsu[p]\n    flag = False"], "jump"),
+    ], fixed=("df", "names"))
+    u = repo.get_def("swcgeom.utils.dsu.DisjointSetUnion.find_parent")
+    col.text_group("R-RANK", u.qualname, u, [
+        ("find follows parents to the root and compresses the path", ["if node_id != self.element_parent[node_id]: self.element_parent[node_id] = self.find_parent(self.element_parent[node_id])"], "find"),
+        ("...", ["return self.element_parent[node_id]"], "ret")])
+    uu = repo.get_def("swcgeom.utils.dsu.DisjointSetUnion.union_sets")
+    col.text_group("R-RANK", uu.qualname, uu, [
+        ("the representatives of both arguments", ["root_a = self.find_parent(node_a)"], "ra"), ("...", ["root_b = self.find_parent(node_b)"], "rb"),
+        ("smaller rank: the REPRESENTATIVE is re-parented", ["self.element_parent[root_a] = root_b"], "re-a"),
+        ("larger or equal rank", ["self.element_parent[root_b] = root_a"], "re-b"),
+        ("equal ranks: the new root's rank grows", ["self.rank[root_a] += 1"], "rank"),
+    ], fixed=("node_a", "node_b"))
+    ss = repo.get_def("swcgeom.utils.dsu.DisjointSetUnion.is_same_set")
+    col.text_group("R-RANK", ss.qualname, ss, [("joined <=> same representative", ["return self.find_parent(node_a) == self.find_parent(node_b)"], "same")],
+                   fixed=("node_a", "node_b"))
